@@ -42,6 +42,14 @@ Definition c11_xv_check (c : c11_xv) : bool :=
     | _, _ => false
     end
   end.
+(* one case type so that all evaluations share the coqc runs *)
+Inductive c11_any := AObs (c : c11_case) | AXv (c : c11_xv) | AOk (ss : list stmt) (expect : bool).
+Definition c11_any_check (a : c11_any) : bool :=
+  match a with
+  | AObs c => c11_check c
+  | AXv c => c11_xv_check c
+  | AOk ss b => Bool.eqb (accesses_ok ss) b
+  end.
 """
 
 # callee table: name -> (pure, [intent per dummy], [is dummy an array])
@@ -269,8 +277,8 @@ def xstmts_to_fortran(ss, ind="    "):
     return out
 
 
-def program_text(stmts, decls):
-    lines = ["module c11m", "contains", CALLEE_TEXT, "  subroutine t()"]
+def routine_text(stmts, decls, name="t"):
+    lines = ["  subroutine %s()" % name]
     for v, ty, bs in decls:
         if bs:
             lines.append("    %s, dimension(%s) :: %s" % (ty, ", ".join("%d:%d" % b for b in bs), v))
@@ -278,8 +286,28 @@ def program_text(stmts, decls):
             lines.append("    %s :: %s" % (ty, v))
     lines.append("    integer, allocatable :: al(:), al2(:)")
     lines += xstmts_to_fortran(stmts)
-    lines += ["  end subroutine t", "end module c11m"]
+    lines += ["  end subroutine %s" % name]
     return "\n".join(lines) + "\n"
+
+
+def module_text(routines):
+    return "module c11m\ncontains\n" + CALLEE_TEXT + "\n".join(routines) + "end module c11m\n"
+
+
+def program_text(stmts, decls):
+    return module_text([routine_text(stmts, decls)])
+
+
+def parse_batch(reader, progs, size=16):
+    """parse the programs `size` routines per module (one reader call per batch); yields the Routine nodes"""
+    from psyclone.psyir.nodes import Routine
+    out = []
+    for k in range(0, len(progs), size):
+        chunk = progs[k:k + size]
+        txt = module_text([routine_text(p[0], p[1], "t%d" % i) for i, p in enumerate(chunk)])
+        rts = {r.name: r for r in reader.psyir_from_source(txt).walk(Routine)}
+        out += [rts["t%d" % i] for i in range(len(chunk))]
+    return out
 
 
 def xnames(ss, acc):
@@ -652,10 +680,11 @@ def run(ctx):
     n_refused = n_nodes = n_exec_nodes = 0
     gap_seen = {}
     samples = 0
+    routines = parse_batch(reader, progs)
+    ctx.log("parsed %d programs" % len(progs))
     for pi, (stmts, decls, stores, origin) in enumerate(progs):
         txt = program_text(stmts, decls)
-        psy = reader.psyir_from_source(txt)
-        rt = [r for r in psy.walk(Routine) if r.name == "t"][0]
+        rt = routines[pi]
         rebuild_intrinsics(stmts, rt.children)
         pairs = pair_nodes(stmts, rt.children, (), [])
         # ---- dynamic side
@@ -763,6 +792,7 @@ def run(ctx):
             ctx.sample({"program": "\n".join(xstmts_to_fortran(stmts, "")), "report_whole": whole[1] if whole[0] == "ok" else whole,
                         "interp": results})
 
+    ctx.log("implementation reports + interpreter done")
     # ---- refused shapes
     for t in REFUSED_SHAPES:
         g = XGen(ctx.rng("tg"))
@@ -784,15 +814,22 @@ def run(ctx):
     nm = mf.Names().collect([])
     for x in "abcdijkmnst":
         nm.get(x)
-    okshape = ["(%s, %s)" % (mf.stmts_to_coq(t, nm), "false") for t in REFUSED_SHAPES] + \
-              ["(%s, %s)" % (mf.stmts_to_coq(t, nm), "true") for t in targeted() if all(is_core(s) for s in t)]
-    bad_ok = ctx.coq_eval_failing(HEADER, "list stmt * bool", "(fun c => Bool.eqb (accesses_ok (fst c)) (snd c))", okshape)
+    okshape = ["(AOk %s false)" % mf.stmts_to_coq(t, nm) for t in REFUSED_SHAPES] + \
+              ["(AOk %s true)" % mf.stmts_to_coq(t, nm) for t in targeted() if all(is_core(s) for s in t)]
 
-    # ---- model vs implementation, interpreter vs Coq
-    failing = ctx.coq_eval_failing(HEADER, "c11_case", "c11_check", coq_cases, shard=400)
+    # ---- model vs implementation, interpreter vs Coq, refusal table: one sharded evaluation
+    allc = ["(AObs %s)" % c for c in coq_cases] + ["(AXv %s)" % c for c in xv_cases] + okshape
+    order = list(range(len(allc)))
+    ctx.rng("shuffle").shuffle(order)                  # spread the expensive (AXv) cases over the shards
+    bad = set(order[i] for i in ctx.coq_eval_failing(HEADER, "c11_any", "c11_any_check", [allc[i] for i in order],
+                                                     shard=ctx.pick(160, 400)))
+    n1, n2 = len(coq_cases), len(coq_cases) + len(xv_cases)
+    failing = sorted(i for i in bad if i < n1)
+    xv_bad = sorted(i - n1 for i in bad if n1 <= i < n2)
+    bad_ok = sorted(i - n2 for i in bad if i >= n2)
     strict_fail = [i for i in failing if not case_info[i][4]]
     lenient_fail = [i for i in failing if case_info[i][4]]
-    xv_bad = ctx.coq_eval_failing(HEADER, "c11_xv", "c11_xv_check", xv_cases, shard=150)
+    ctx.log("Coq evaluation done (%d cases)" % len(allc))
     ctx.cov["disagreements_checked"] = len(failing)
     ctx.notes["statement_nodes"] = n_nodes
     ctx.notes["nodes_executed_with_accesses"] = n_exec_nodes
